@@ -1,6 +1,8 @@
 //! Checks of the agdb library (C01-C23, C32). `core_checks <Cxx> [--tier ..] [--replay file]`
 mod c01;
 mod c04;
+mod c0506;
+mod dbops;
 mod storops;
 
 fn main() {
@@ -9,6 +11,8 @@ fn main() {
     let code = match args.property.as_str() {
         "C01" => c01::run(&args),
         "C04" => c04::run(&args),
+        "C05" => c0506::run_c05(&args),
+        "C06" => c0506::run_c06(&args),
         other => engine::machinery_failure(&format!("core_checks: unknown property {other}")),
     };
     std::process::exit(code);
